@@ -276,6 +276,7 @@ Definition step3 (st : rstate) (f : nat) : option rstate :=
           if rp_keep P && is_flagged d e then Some st
           else if is_flagged d e then
             Some (mkrs d (rs_nc st) fps (rs_em st) (rs_pts st) (rs_excl st) [as_undirected e] (rs_map st) (rs_segs st) (rs_skinny st) (rs_unc st))
+          else if forallb (fun x => is_outer d x || memb (e_face d x) (rs_excl st)) [e; e_rev e] then Some st     (* on an edge of the excluded region *)
           else
             go (flat_map (fun x => if is_outer d x then [] else [e_next d x; e_prev d x]) [e; e_rev e]) (IOnEdge e)
       | ROnFace g =>
